@@ -20,7 +20,7 @@ ID = "C07"
 LEVEL = "proof"
 THEOREMS = ["wf_init", "wf_createRootNode", "wf_createAdd", "wf_addDataPointToNode", "wf_removeDataPointFromNode", "wf_removeDataPointFromOutliers", "wf_getSubtree", "wf_removeSubtree", "wf_addSubtree", "wf_relabelNodes", "wf_update", "wf_fromDict_toDict", "wf_touch", "wf_step", "wf_reachable", "dense_step", "data_conserved", "subtree_is_clade", "labels_partition", "abs_eq_labels", "subtree_move_conserves", "dp_move_conserves",
             "forest_init", "forest_createRootNode", "forest_getSubtree", "forest_removeSubtree", "forest_addSubtree", "forest_fromDict",
-            "forest_step", "forest_reachable", "forest_parent_unique_acyclic", "isForestB_iff", "graph_of_forest", "graph_createRootNode",
+            "forest_step", "forest_reachable", "forest_ops_total", "forest_parent_unique_acyclic", "isForestB_iff", "graph_of_forest", "graph_createRootNode",
             "graph_store_createRootNode", "graph_removeSub", "graph_getSubtree", "graph_addSubtree", "graph_fromDict"]
 BUDGET = {"quick": 100, "thorough": 900}
 SEARCH_BUDGET = 60
@@ -60,7 +60,11 @@ TRUSTED = [
     "the harness replays every history on that model with the real indices and compares node and edge sets after every op",
     "numpy.random.Generator (real seeded generators are used for the sampler invocations: sampled, not enumerated)",
 ]
-ASSUMPTIONS = ["sampler invocations are sampled (seeds), not exhaustive: exhaustive transition rows are compared in C01 / C04"]
+ASSUMPTIONS = ["sampler invocations are sampled (seeds), not exhaustive: exhaustive transition rows are compared in C01 / C04",
+               "graph model: the payload scan of get_subtree is taken to find the image of _node_indices[subtree_root] (names are unique: WF); "
+               "the index of the grafted tree's root copy, removed again inside add_subtree, cannot be observed (any unused index is injected); "
+               "the renamings injected for get_subtree / add_subtree are reconstructed from payloads and shape (isomorphic subtrees are "
+               "interchangeable: every such pairing gives the same edge set)"]
 WANT = {"C07"}
 SAMPLERS = ["burnin", "pg", "subtree", "dp", "prg", "iteration", "retained"]
 
